@@ -814,6 +814,36 @@ func (w *World) closeDown(out map[Lit]bool) {
 				}
 			}
 		}
+		// a comparison of an integer result with a constant (idx := indexOf(...); idx >= 0)
+		cmpKind := false
+		var cmpOp token.Token
+		var cmpK int64
+		if h == nil {
+			if bin, ok := l.V.(*ssa.BinOp); ok {
+				switch bin.Op {
+				case token.LSS, token.LEQ, token.GTR, token.GEQ, token.EQL, token.NEQ:
+					for _, pair := range [][2]ssa.Value{{bin.X, bin.Y}, {bin.Y, bin.X}} {
+						k, isK := intConst(pair[1])
+						if !isK {
+							continue
+						}
+						c2, h2, i2 := w.asCallResult(throughCell(strip(pair[0])))
+						if h2 == nil {
+							continue
+						}
+						if bt, ok := h2.Signature.Results().At(i2).Type().Underlying().(*types.Basic); !ok || bt.Info()&types.IsInteger == 0 {
+							continue
+						}
+						call, h, idx, cmpKind, cmpK = c2, h2, i2, true, k
+						cmpOp = bin.Op
+						if pair[0] == bin.Y {
+							cmpOp = flipOp(bin.Op)
+						}
+						break
+					}
+				}
+			}
+		}
 		if h == nil || poisoned[h] || w.ndBusy[h] {
 			continue
 		}
@@ -827,7 +857,12 @@ func (w *World) closeDown(out map[Lit]bool) {
 			}
 			continue
 		}
-		rets, extra := w.outcomeReturns(h, idx, wantNil, nilKind, l.Pol)
+		rets, extra := []*ssa.Return(nil), map[*ssa.Return]Lit{}
+		if cmpKind {
+			rets = w.outcomeReturnsCmp(h, idx, cmpOp, cmpK, l.Pol)
+		} else {
+			rets, extra = w.outcomeReturns(h, idx, wantNil, nilKind, l.Pol)
+		}
 		if len(rets) == 0 {
 			continue
 		}
@@ -989,4 +1024,47 @@ func (w *World) deepDom(root *ssa.Function, a, b ssa.Instruction, d int) bool {
 		}
 	}
 	return false
+}
+
+// outcomeReturnsCmp: the returns of h whose integer result idx can make (result op k) have the truth value pol,
+// judged by the interval of the returned value at that return.
+func (w *World) outcomeReturnsCmp(h *ssa.Function, idx int, op token.Token, k int64, pol bool) []*ssa.Return {
+	if !pol {
+		op = negOp(op)
+	}
+	old := w.focus
+	defer w.restoreFocus(old)
+	bc := &boundsCtx{w: w, fn: h, root: h, facts: w.factsOf(h)}
+	var rets []*ssa.Return
+	for _, r := range returnsOf(h) {
+		if h.Recover != nil && r.Block() == h.Recover && !hasRecover(h) {
+			continue
+		}
+		if w.factsOf(h).in[r.Block()] == nil {
+			continue
+		}
+		if idx >= len(r.Results) {
+			return nil
+		}
+		rr := bc.rng(r.Results[idx], r.Block())
+		possible := true
+		switch op {
+		case token.LSS:
+			possible = rr.lo == negInf || rr.lo < k
+		case token.LEQ:
+			possible = rr.lo == negInf || rr.lo <= k
+		case token.GTR:
+			possible = rr.hi == posInf || rr.hi > k
+		case token.GEQ:
+			possible = rr.hi == posInf || rr.hi >= k
+		case token.EQL:
+			possible = (rr.lo == negInf || rr.lo <= k) && (rr.hi == posInf || rr.hi >= k)
+		case token.NEQ:
+			possible = !(rr.lo == k && rr.hi == k)
+		}
+		if possible {
+			rets = append(rets, r)
+		}
+	}
+	return rets
 }
